@@ -374,6 +374,22 @@ def run_greenback(case) -> dict:
                 return
             co = mk_async(k)()
             aw = case.get("aw", "coro")
+            if k == 0 and case.get("worker_parent") == "bystander":
+                # the innermost await_ is made from a worker greenlet whose parent was given explicitly: a greenlet parked
+                # outside the task, which has nothing to do with what the task is doing
+                import greenlet
+
+                starter = greenlet.getcurrent()
+
+                def worker_body():
+                    try:
+                        greenback.await_(co)
+                    except BaseException:      # (cancellation at the end of the scenario: hand control back, stay parked)
+                        pass
+                    starter.switch()
+
+                greenlet.greenlet(worker_body, parent=res["bystander"]).switch()
+                return
             if aw == "coro" or k != 0:
                 greenback.await_(co)
             elif aw == "wrapper":
@@ -420,6 +436,14 @@ def run_greenback(case) -> dict:
                 res["st"] = stackscope.extract(task, with_contexts=False)
             nursery.cancel_scope.cancel()
 
+    if case.get("worker_parent") == "bystander":
+        import greenlet
+
+        def sync99():                     # (named like the task's own functions: if it shows up, the comparison sees it)
+            greenlet.getcurrent().parent.switch()
+
+        res["bystander"] = greenlet.greenlet(sync99)
+        res["bystander"].switch()
     trio.run(main)
     st = res["st"]
     visible = [f.funcname for f in st.frames if not f.hide]
@@ -484,6 +508,8 @@ class C15(PropCheck):
         for m in range(0, 4):
             for where in ("outside", "inside"):
                 out.append({"k": "greenback", "alternations": m, "where": where})
+                if where == "outside" and m >= 1:
+                    out.append({"k": "greenback", "alternations": m, "where": where, "worker_parent": "bystander"})
                 if where == "inside":
                     for via in ("ugl", "ugl_dead", "ugl_unstarted", "ugl_c"):
                         out.append({"k": "greenback", "alternations": m, "where": where, "via": via})
